@@ -92,6 +92,11 @@ func sqlText(t sql.Type, v interface{}) (txt []byte, ok bool, err error) {
 // check evaluates the property predicate on the implementation alone for a storable value.
 func check(c *lib.Ctx, id int, cs caseT, t sql.Type, v interface{}, txt []byte, back interface{}, cerr error, sigPrefix string) {
 	c.PredChecked()
+	// independent oracle: the text, read by a reader written here (math/big, time), denotes the value itself
+	if want, ok := denotes(cs, v, txt); !ok {
+		c.PredFail(id, sigPrefix+"/text-denotes-different-value",
+			fmt.Sprintf("%s value %v is sent as %q, which denotes %s", t, v, txt, want), cs)
+	}
 	max := int(t.MaxTextResponseByteLength(ctx))
 	if len(txt) > max {
 		c.PredFail(id, sigPrefix+"/text-longer-than-announced",
@@ -107,6 +112,121 @@ func check(c *lib.Ctx, id int, cs caseT, t sql.Type, v interface{}, txt []byte, 
 		c.PredFail(id, sigPrefix+"/reads-back-different",
 			fmt.Sprintf("%s value %v: text %q converts back to %v (Compare=%d, err=%v)", t, v, txt, back, cmp, err), cs)
 	}
+}
+
+// ratOfText reads [-]digits[.digits] with math/big only.
+func ratOfText(txt string) (*big.Rat, bool) {
+	body := strings.TrimPrefix(txt, "-")
+	if body == "" || strings.Trim(body, "0123456789.") != "" || strings.Count(body, ".") > 1 || body == "." {
+		return nil, false
+	}
+	r, ok := new(big.Rat).SetString(txt)
+	return r, ok
+}
+
+// usOfTimeText reads [-]H+:MM:SS[.f{1,6}] into microseconds, independently of the engine.
+func usOfTimeText(txt string) (int64, bool) {
+	neg := strings.HasPrefix(txt, "-")
+	body := strings.TrimPrefix(txt, "-")
+	frac := ""
+	if i := strings.IndexByte(body, '.'); i >= 0 {
+		body, frac = body[:i], body[i+1:]
+		if frac == "" || len(frac) > 6 || strings.Trim(frac, "0123456789") != "" {
+			return 0, false
+		}
+	}
+	parts := strings.Split(body, ":")
+	if len(parts) != 3 || len(parts[0]) < 2 || len(parts[1]) != 2 || len(parts[2]) != 2 {
+		return 0, false
+	}
+	var n [3]int64
+	for i, p := range parts {
+		if strings.Trim(p, "0123456789") != "" {
+			return 0, false
+		}
+		z, ok := new(big.Int).SetString(p, 10)
+		if !ok || !z.IsInt64() {
+			return 0, false
+		}
+		n[i] = z.Int64()
+	}
+	if n[1] > 59 || n[2] > 59 {
+		return 0, false
+	}
+	us := int64(0)
+	if frac != "" {
+		z, _ := new(big.Int).SetString(frac+strings.Repeat("0", 6-len(frac)), 10)
+		us = z.Int64()
+	}
+	x := ((n[0]*60+n[1])*60+n[2])*1000000 + us
+	if neg {
+		x = -x
+	}
+	return x, true
+}
+
+// denotes says whether the wire text, read by an independent reader, is the value v; when not, it describes what the
+// text does denote.  Kinds without an independent reader (enum, set: covered by Convert/Compare) return true.
+func denotes(cs caseT, v interface{}, txt []byte) (string, bool) {
+	t := string(txt)
+	switch cs.Kind {
+	case "int", "year":
+		z, ok := new(big.Int).SetString(t, 10)
+		if !ok || strings.HasPrefix(t, "+") {
+			return "no integer", false
+		}
+		return z.String(), z.Cmp(bi(fmt.Sprint(v))) == 0
+	case "decimal":
+		r, ok := ratOfText(t)
+		if !ok {
+			return "no plain decimal number", false
+		}
+		want := new(big.Rat).SetInt(bi(cs.Val))
+		p := new(big.Rat).SetInt(new(big.Int).Exp(big.NewInt(10), big.NewInt(int64(abs(cs.Exp))), nil))
+		if cs.Exp < 0 {
+			want.Quo(want, p)
+		} else {
+			want.Mul(want, p)
+		}
+		if cs.Neg {
+			want.Neg(want)
+		}
+		return r.RatString(), r.Cmp(want) == 0
+	case "bit":
+		z := new(big.Int).SetBytes(txt)
+		return z.String(), z.Cmp(bi(cs.Val)) == 0
+	case "time":
+		x, ok := usOfTimeText(t)
+		if !ok {
+			return "no [-]H:MM:SS[.ffffff] time", false
+		}
+		return fmt.Sprintf("%d microseconds", x), x == bi(cs.Val).Int64()
+	case "date", "datetime":
+		tv := v.(time.Time)
+		if tv.Equal(types.ZeroTime) || tv.Year() < 1000 || tv.Year() > 9999 {
+			return "", true // zero date / unpadded years: judged by Convert+Compare (known findings)
+		}
+		layout := "2006-01-02"
+		if cs.Kind == "datetime" {
+			layout = "2006-01-02 15:04:05"
+			if cs.P > 0 {
+				layout += "." + strings.Repeat("0", cs.P)
+			}
+		}
+		got, err := time.Parse(layout, t)
+		if err != nil {
+			return "no " + layout + " text", false
+		}
+		return got.String(), got.Equal(tv)
+	}
+	return "", true
+}
+
+func abs(i int) int {
+	if i < 0 {
+		return -i
+	}
+	return i
 }
 
 // ---------- integers ----------
@@ -605,7 +725,8 @@ func runEnum(c *lib.Ctx, cs caseT) {
 	}
 	i := bi(cs.Val).Int64()
 	v := uint16(i)
-	cs.Storable = true
+	// index 0 (the '' error value) is only storable in non-strict mode: modelled, but nothing is demanded of it
+	cs.Storable = i != 0
 	txt, ok, err := sqlText(t, v)
 	if !ok {
 		id := c.CaseNoModel(cs, "")
@@ -614,13 +735,20 @@ func runEnum(c *lib.Ctx, cs caseT) {
 	}
 	back, _, cerr := t.Convert(ctx, string(txt))
 	id := c.Case(fmt.Sprintf("CEnum %s %s %s %s", coqNames(cs.Names), lib.CoqZ(i), lib.CoqBytes(txt),
-		coqOptZ(cerr == nil, fmt.Sprint(back))), cs, fmt.Sprintf("enum|%q|%d", cs.Names, i))
+		coqOptZ(cerr == nil, fmt.Sprint(back))), cs, enumKey(cs, i))
 	c.Count("enum")
-	sig := "enum"
-	if i == 0 {
-		sig = "enum/index-zero"
+	if !cs.Storable {
+		c.Count("enum_index_zero_input")
+		return
 	}
-	check(c, id, cs, t, v, txt, back, cerr, sig)
+	check(c, id, cs, t, v, txt, back, cerr, "enum")
+}
+
+func enumKey(cs caseT, i int64) string {
+	if i == 0 {
+		return ""
+	}
+	return fmt.Sprintf("enum|%q|%d", cs.Names, i)
 }
 
 func genEnum(r *lib.RNG) caseT {
@@ -691,6 +819,8 @@ func run(c *lib.Ctx, cs caseT) {
 		runSet(c, cs)
 	case "wire":
 		runWire(c, cs)
+	case "wireslow":
+		runWireSlow(c, cs)
 	default:
 		panic("unknown kind " + cs.Kind)
 	}
@@ -770,6 +900,15 @@ func main() {
 			{Kind: "time", Val: "3020399000000"},
 			{Kind: "time", Val: "-3020399000000"},
 			{Kind: "time", Val: "-1"},
+			{Kind: "time", Val: "360000000000"},   // 100:00:00
+			{Kind: "time", Val: "-360000000000"},  // -100:00:00
+			{Kind: "time", Val: "359999999999"},   // 99:59:59.999999
+			{Kind: "time", Val: "-1234567890123"}, // -342:56:07.890123
+			{Kind: "int", Ty: "u64", Val: "9223372036854775808"},
+			{Kind: "int", Ty: "u64", Val: "9223372036854775807"},
+			{Kind: "int", Ty: "u64", Val: "12345678901234567890"},
+			{Kind: "wireslow", P: 700},
+			{Kind: "wireslow", P: 300},
 			{Kind: "bit", P: 64, Val: "18446744073709551615"},
 			{Kind: "bit", P: 9, Val: "257"},
 			{Kind: "set", Names: []string{"a", "B", "日本", "x y", "2", "1"}, Val: "63"},
